@@ -245,6 +245,8 @@ func c20Build(tier string) []c20Case {
 				if L > 1 {
 					out = append(out, c20Case{0, t, k, L / 2, false, true, 0})
 				}
+				// the writer took every byte of the call and reports an error with it (data accepted, flush failed)
+				out = append(out, c20Case{0, t, k, L, false, false, 0})
 				continue
 			}
 			if L <= 8 || tier == "thorough" && L <= 64 {
@@ -254,6 +256,7 @@ func c20Build(tier string) []c20Case {
 			} else {
 				accepts = append(accepts, 1, L/2, L-1)
 			}
+			accepts = append(accepts, L) // every byte accepted AND an error returned
 			for _, a := range accepts {
 				for _, forever := range []bool{false, true} {
 					for entry := 0; entry < 2; entry++ {
@@ -269,8 +272,8 @@ func c20Build(tier string) []c20Case {
 			}
 			// the other error values, failing once and forever, accepting nothing, one byte or half
 			for ek := 1; ek < len(c20Errs); ek++ {
-				for _, a := range []int{0, 1, L / 2} {
-					if a < L || a == 0 {
+				for _, a := range []int{0, 1, L / 2, L} {
+					if a <= L || a == 0 {
 						out = append(out, c20Case{ek, t, k, a, false, false, 0}, c20Case{ek, t, k, a, false, true, 1})
 					}
 				}
@@ -356,7 +359,7 @@ func init() {
 	explore.Register(&explore.Prop{
 		ID:    "C20",
 		Level: "fault_enumeration",
-		Rule: "every subset of hyphen positions of 6 block skeletons (if, for, raw inside if, capture, unless/else, tablerow: ~1000 templates) and 49 templates (three printing arrays of arrays; four that count the filter/tag executions after the failing write; eight with loops whose iterations end by break or continue; four of them with 100..600 writes or a 70 KB write) covering every tag (incl. tablerow, include, capture, nested loops, cycle, registered tag and block), trim-marker placements, empty output and long text; a fault-free render records the W Write calls and their sizes; then for EVERY k in 0..W-1 the writer fails on call k accepting 0 bytes or a strict prefix (all prefix lengths for calls <=8 bytes (quick) / <=64 (thorough), else 1, len/2, len-1), failing once or forever, through FRender and ParseAndFRender, returning a sentinel error - and, for the hand-written templates, io.ErrShortWrite, io.EOF, io.ErrClosedPipe and a wrapping error as well; plus short writes with a nil error (totality only); " +
+		Rule: "every subset of hyphen positions of 6 block skeletons (if, for, raw inside if, capture, unless/else, tablerow: ~1000 templates) and 49 templates (three printing arrays of arrays; four that count the filter/tag executions after the failing write; eight with loops whose iterations end by break or continue; four of them with 100..600 writes or a 70 KB write) covering every tag (incl. tablerow, include, capture, nested loops, cycle, registered tag and block), trim-marker placements, empty output and long text; a fault-free render records the W Write calls and their sizes; then for EVERY k in 0..W-1 the writer fails on call k accepting 0 bytes, a strict prefix or all bytes of the call (all prefix lengths for calls <=8 bytes (quick) / <=64 (thorough), else 1, len/2, len-1), failing once or forever, through FRender and ParseAndFRender, returning a sentinel error - and, for the hand-written templates, io.ErrShortWrite, io.EOF, io.ErrClosedPipe and a wrapping error as well; plus short writes with a nil error (totality only); " +
 			"class = (template, fault kind, partial accept); distinct_nontrivial counts distinct classes",
 		Assumptions: []string{"a writer that returns n < len(p) with a nil error violates io.Writer; only absence of a panic is required there"},
 		Setup:       func(tier string) { c20.eng = c20Engine(); c20Build(tier) },
